@@ -38,7 +38,8 @@ EXTRA_PROPS = ["C13Exec"]
 
 _MISSING = "<not-passed>"          # default of the optional keywords (hashable, part of einx's cache key)
 OPTIONAL = ("name", "arg_index", "signature")
-STYLES = ["pos", "name", "idx_sig", "kwonly", "varkw", "mixed", "posonly_name", "varpos", "unrelated", "object", "partial", "all3", "req_name"]
+STYLES = ["pos", "name", "idx_sig", "kwonly", "varkw", "mixed", "posonly_name", "varpos", "unrelated", "object", "partial", "all3", "req_name",
+          "partial_plain", "partial_idx"]
 BAD = ["list", "float", "none", "duck", "wrongshape", "raises"]
 
 
@@ -164,6 +165,15 @@ def make_factory(style, rec):
     if style == "partial":
         def g(shape, name=M, tag=None):
             return rec(shape, kw(name=name), ())
+        return functools.partial(g, tag="t")
+    # further callables of the SAME class (functools.partial) whose wrapped functions declare other optional keywords
+    if style == "partial_plain":
+        def g(shape, tag=None):
+            return rec(shape, {}, ())
+        return functools.partial(g, tag="t")
+    if style == "partial_idx":
+        def g(shape, arg_index=M, signature=M, tag=None):
+            return rec(shape, kw(arg_index=arg_index, signature=signature), ())
         return functools.partial(g, tag="t")
     raise AssertionError(style)
 
@@ -654,15 +664,22 @@ def run_case(ctx, case, rng, tie=True, n_bad=2):
     clean &= check_result(ctx, warm2, "cached repeat (different factory objects, same signature)")
     # factories whose signatures differ from the cached ones only in the KIND of a parameter (`name=None` vs `name=None, /`):
     # they declare different optional keywords, so they must not be served by the function compiled for the others
-    SIB = {"name": "posonly_name", "posonly_name": "name", "mixed": "posonly_name"}
-    if any(st in SIB for st in case["styles"].values()):
-        for order in (0, 1):
-            sib = {**case, "styles": {i: (SIB.get(st, st) if order == 0 else st) for i, st in case["styles"].items()}}
-            ex = Exec(sib, 7 + order).run()
-            lab = "sibling signature (same parameter names, different kind) after the original" if order == 0 else "original signature again after its sibling"
-            ctx.count("exec:sibling-signature")
-            clean &= check_exec(ctx, ex, lab)
-            clean &= check_result(ctx, ex, lab)
+    # ... or that are callables of the same class / the same arity with another set of optional keywords (two
+    # functools.partial objects; `(shape)` vs `(shape, **kwargs)`): every one of them is run after the original, then the
+    # original again
+    SIBS = {"name": ["posonly_name"], "posonly_name": ["name"], "mixed": ["posonly_name"], "partial": ["partial_plain", "partial_idx"],
+            "partial_plain": ["partial", "partial_idx"], "partial_idx": ["partial_plain"], "varkw": ["pos"], "pos": ["varkw"], "object": ["pos"]}
+    nsib = max((len(SIBS.get(st, [])) for st in case["styles"].values()), default=0)
+    if nsib and (any(st not in ("pos",) for st in case["styles"].values() if st in SIBS) or rng.random() < 0.35):
+        for k in range(nsib):
+            for order in (0, 1):
+                sib = {**case, "styles": {i: ((SIBS[st][k % len(SIBS[st])] if st in SIBS else st) if order == 0 else st) for i, st in case["styles"].items()}}
+                ex = Exec(sib, 7 + order + 2 * k).run()
+                lab = ("sibling signature (same class / same parameter names, other optional keywords) after the original" if order == 0
+                       else "original signature again after its sibling")
+                ctx.count("exec:sibling-signature")
+                clean &= check_exec(ctx, ex, lab)
+                clean &= check_result(ctx, ex, lab)
     # the very same callable at every factory position (it tells the positions apart by `arg_index`)
     if len(case["pos"]) >= 2:
         sh = Exec(case, 6, shared=True).run()
